@@ -132,6 +132,14 @@ def tasks(tier):
                    max_unknown=None, before_sleep="policy", sleeper="policy", deco_shared=True,
                    bs_async=aw, sleeper_async=aw, suspend=aw)
         out.append({"family": "protocol-shared-decorator", "cfg": cfg, "entry": e, "bound": 0})
+    # failures carrying a Retry-After hint longer than the delay of a strategy that does not look
+    # at hints: handler, before_sleep and sleeper all see the strategy's delay
+    for st, e in itertools.product([{"default": "legacy", "per": {}}, {"default": "ctx", "per": {"R": "legacy"}}],
+                                   SYNC + ASYNC):
+        cfg = dict(M=3, alphabet=["x:R+ra", "ok", "r:R+ra", "x:T+ra"], ra_ticks=9, handler="call",
+                   handler_free=True, max_unknown=None, strat=st, strat_menu=[1, 3], strat_free=True,
+                   before_sleep="call", sleeper="call", deadline=40)
+        out.append({"family": "protocol-hint-ignored", "cfg": cfg, "entry": e, "bound": 0})
     # delays that are not whole microseconds: DEFER reports exactly the computed delay
     for e in SYNC + ASYNC:
         cfg = dict(M=3, alphabet=["x:T", "ok", "r:T"], handler="call", handler_free=True,
